@@ -64,6 +64,7 @@ class VSock:
         self.send_calls = 0
         self.fail_send_at: Optional[int] = None  # harness-injected write fault at the k-th send
         self.shut = False  # shutdown() was called on this end
+        self.err_pipe = False  # a reset in answer to our own write has arrived and no send has reported it yet
         self.send_free: Optional[int] = None  # free space of the send buffer as a non-blocking send would find it (None = plenty)
 
     # identity -------------------------------------------------------------------------------
@@ -195,14 +196,17 @@ class VSock:
             self.broken = True
             raise ConnectionResetError(errno.ECONNRESET, "Connection reset by peer")
         if self.broken or self.shut:
+            self.err_pipe = False
             raise BrokenPipeError(errno.EPIPE, "Broken pipe")
         if self.peer == "fin" or (self.peer_sock is not None and self.peer_sock.closed):
             if self.grace <= 0:
                 self.broken = True
+                self.err_pipe = False
                 raise BrokenPipeError(errno.EPIPE, "Broken pipe")
             self.grace -= 1
             if self.grace <= 0:
                 self.broken = True
+                self.err_pipe = True  # the reset that answers this write is pending until the next send reports it (poll: POLLERR)
             self.net.on_send(self, b, delivered=False)
             return None
         if self.peer == "rst":
@@ -431,13 +435,82 @@ def _mk_socket_module():
     return ns
 
 
+class VPoll:
+    """select.poll() over virtual sockets (client side only). Event bits as measured on loopback (conformance scenarios
+    "poll ..."): data or end of stream -> POLLIN; the peer's FIN -> POLLRDHUP (if asked for); a reset -> POLLIN|POLLERR|POLLHUP
+    (+POLLRDHUP if asked for); POLLOUT whenever asked for on an open connection."""
+
+    def __init__(self, net: "VNet"):
+        self.net = net
+        self.reg: Dict[VSock, int] = {}
+
+    def register(self, s, mask=_rsel.POLLIN | _rsel.POLLPRI | _rsel.POLLOUT):
+        self.reg[s] = mask
+
+    def modify(self, s, mask):
+        if s not in self.reg:
+            raise FileNotFoundError(errno.ENOENT, "No such file or directory")
+        self.reg[s] = mask
+
+    def unregister(self, s):
+        if s not in self.reg:
+            raise KeyError(s)
+        del self.reg[s]
+
+    def _events(self, s: VSock, mask: int) -> int:
+        if s.closed:
+            return _rsel.POLLNVAL
+        ev = 0
+        reset = s.peer == "rst" or s.err or s.broken
+        if (s.rx or s.peer != "open" or s.err) and mask & _rsel.POLLIN:
+            ev |= _rsel.POLLIN
+        if s.peer != "open" and mask & _rsel.POLLRDHUP:
+            ev |= _rsel.POLLRDHUP
+        if reset:
+            ev |= _rsel.POLLHUP
+            if s.err or s.err_pipe:  # the pending error is reported until a recv / send has consumed it
+                ev |= _rsel.POLLERR
+        if mask & _rsel.POLLOUT and not self.net.cli_nonwritable:
+            ev |= _rsel.POLLOUT
+        return ev
+
+    def poll(self, timeout=None):
+        if self.net.on_mgr_thread():
+            raise HarnessError("select.poll() on the manager thread is not modelled")
+
+        def ready():
+            return [(s, e) for s, e in ((s, self._events(s, m)) for s, m in self.reg.items()) if e]
+
+        out = ready()
+        waits = timeout is None or timeout > 0
+        if not out and waits and self.net.cli_pump:
+            while not out:
+                if not self.net.cli_pump():
+                    break
+                out = ready()
+        if not out:
+            if timeout is None:
+                raise WouldBlock("client poll would block forever")
+            self.net.cli_clock.advance(max(0.0, timeout / 1000.0))
+        return out
+
+
 class _SelectModule:
     __name__ = "vf.net.select"
     error = OSError
+    POLLIN, POLLPRI, POLLOUT, POLLERR, POLLHUP, POLLNVAL, POLLRDHUP = (_rsel.POLLIN, _rsel.POLLPRI, _rsel.POLLOUT, _rsel.POLLERR, _rsel.POLLHUP,
+                                                                      _rsel.POLLNVAL, _rsel.POLLRDHUP)
 
     @staticmethod
     def select(r, w, x, timeout=None):
         return current().select(r, w, x, timeout)
+
+    @staticmethod
+    def poll():
+        return VPoll(current())
+
+    def __getattr__(self, name):
+        raise HarnessError(f"library uses select.{name}, which the virtual network does not model")
 
 
 class _ClockProxy:
@@ -579,6 +652,11 @@ def _do(s, op, arg, real):
                 return [s.readable(), True]
             except ValueError:
                 return "ValueError"
+        if op == "poll":
+            p = _rsel.poll() if real else VPoll(s.net)
+            p.register(s, _rsel.POLLIN | _rsel.POLLRDHUP)
+            ev = p.poll(0)
+            return sorted(n for n in ("POLLIN", "POLLRDHUP", "POLLERR", "POLLHUP", "POLLNVAL", "POLLOUT") if ev and ev[0][1] & getattr(_rsel, n))
         if op == "dontwait_full":
             # a non-blocking sendall into a send buffer that cannot take the whole message: a part is written, then EAGAIN
             if real:
@@ -633,6 +711,11 @@ SCENARIOS = {
     "idle": [("B", "sel"), ("A", "send", b"a"), ("B", "sel"), ("B", "recv", 1), ("B", "sel")],
     "both close": [("A", "close"), ("B", "close"), ("B", "send", b"x")],
     "open, shutdown": [("B", "shutdown"), ("B", "send", b"x")],
+    "poll idle / data / fin": [("B", "poll"), ("A", "send", b"abc"), ("B", "poll"), ("A", "close"), ("B", "poll"), ("B", "recv", 3), ("B", "poll"), ("B", "recv", 3), ("B", "poll")],
+    "poll fin only": [("A", "close"), ("B", "poll"), ("B", "recv", 1), ("B", "poll")],
+    "poll rst": [("A", "rst"), ("B", "poll"), ("B", "recv", 1), ("B", "poll")],
+    "poll data then rst": [("A", "send", b"ab"), ("A", "rst"), ("B", "poll"), ("B", "recv", 2), ("B", "poll")],
+    "poll after our send into a closed peer": [("A", "close"), ("B", "send", b"x"), ("B", "poll"), ("B", "send", b"y"), ("B", "poll")],
     "dontwait on a full buffer": [("B", "dontwait_full"), ("A", "recv", 1), ("A", "recv", 50)],
     "fin, shutdown": [("A", "close"), ("B", "shutdown")],
     "rst, shutdown": [("A", "rst"), ("B", "shutdown")],
